@@ -112,7 +112,7 @@ def write_evidence(pid, tier, seed, prog, spec, outs, allres, discharged, nobl, 
     for r in allres[:3] + [x for x in allres if x['status'] != 'unsat'][:3]:
         samples.append({k: r[k] for k in ('name', 'status', 'solver', 'time', 'where', 'kind') if k in r})
     bounded = sum(o.get('bounded', 0) for o in outs)
-    level = LEVEL.get(pid, 'other')
+    level = manifest_level(pid) or LEVEL.get(pid, 'other')
     cov = {
         'obligations': nobl,
         'discharged': discharged,
@@ -133,7 +133,7 @@ def write_evidence(pid, tier, seed, prog, spec, outs, allres, discharged, nobl, 
         'covers_failed': [n for n, s in vac],
         'known_findings_printed': [f['obligation'] for f, v in known_hit],
         'samples': samples,
-        'explanation': EXPLAIN.get(pid, ''),
+        'explanation': EXPLAIN.get(pid, DEFAULT_EXPLAIN),
         'engine_errors': [o['error'] for o in outs if o['error']],
     }
     assumptions = ['assumed contract of %s: %s' % (k, v) for k, v in sorted(ASSUMED.items())]
@@ -151,4 +151,22 @@ def write_evidence(pid, tier, seed, prog, spec, outs, allres, discharged, nobl, 
         json.dump(ev, f, indent=1)
 
 
-EXPLAIN = {}
+def manifest_level(pid):
+    try:
+        m = json.load(open(os.path.join(ROOT, 'MANIFEST.json')))
+        for c in m.get('checks', []):
+            if c['property_id'] == pid:
+                return c['level_claimed']['category']
+    except Exception:
+        pass
+    return None
+
+
+EXPLAIN = {
+    'C09': 'Contract-based deductive proof: every expiration computation/report of both twins is discharged for all int64 '
+           'd, D, now, e, except the obligation expiration/post.exact.far-future (now+d > MaxInt64 ns), which is an open known '
+           'finding (see known_findings.json); therefore discharged < obligations and the level is not claimed as proof.',
+}
+DEFAULT_EXPLAIN = ('Contract-based deductive verification of the real functions (obligations generated from go/ssa, discharged by '
+                   'SMT solvers); see DESIGN.md section 5 for which clauses of this property are decided, reduced to checked premises, '
+                   'or not decided.')
